@@ -474,6 +474,21 @@ pub fn run_bytes(case: &Case, out: &mut Outcome) -> Option<Failure> {
             },
         };
         out.class(format!("outcome-returned-{kind}"));
+        // the caller tries again on the same transport (no set_up): whatever that call does, it
+        // must not panic or spin
+        if !w.panics.iter().any(|(_, m)| !tolerated_panic(m)) && w.ctx_idle_or_returned() {
+            w.tick();
+            if w.start_run() {
+                settle(&mut w, &plan, true);
+                if let Some(f) = check_panics(&w, out) {
+                    return Some(Failure { sig: f.sig, msg: format!("[run() called again after the call had returned] {}", f.msg) });
+                }
+                if w.budget_exhausted {
+                    return Some(Failure { sig: format!("C04/livelock/{ph}"), msg: format!("poll budget exhausted when run() was called again; input {}", hex(&case.bytes)) });
+                }
+                out.class("called-again-after-return");
+            }
+        }
         // a connection that was accepted must be servable: run() on it answers a QoS 1 PUBLISH
         // (whatever else the input contained is run()'s to handle or to fail on)
         let accepted = matches!(w.conn_results.last(), Some(ConnRes::Connack(c)) if c.reason < 0x80);
